@@ -32,9 +32,31 @@ enum / header maps of C02Hdr / C08Gen); hypothesis `IsBytes bs` (every element <
                                         `ChannelAssignment::from_tag`, the UTF-8-like number, block-size / sample-rate codes, CRC-8
                                         over exactly the consumed bytes (`crc_tail`; the CRC is the hand model's `crcBits rfcCrc8`),
                                         `from_specs` + `set_frame_offset` = the hand model's header (`C08Gen.hdrOfGen`)
-The chain stops here: `frame` is generated (Gen/Parser.lean, incl. `many_m_n` with the channel counter, CRC-16) but has no
-theorem yet (missing: "every bit-level parser returns a suffix of its input" for the sub-frame chain, needed to re-align
-after `bits(..)`, and `manyMNS` against `Repo.subframes`); `stream_info`, `metadata_block`, `stream` are not translated.
+  C16G_frame                            `frame(stream_info, check_crc)` (hypotheses `IsBytes bs`, `info.channels < 2^64`): header with
+                                        CRC-8 always on, channel / bits-per-sample checks, `FrameHeader::block_size` (`C15Gen.block_size_eq`),
+                                        `bits(many_m_n(..))` with the channel counter (`many_subframes`), re-alignment (`align_suffix`, with
+                                        `suf_subframes`: every bit-level parser of the mirror returns a suffix of its input - `suf_*`),
+                                        CRC-16 over exactly the frame's bytes (`crc_tail`), `Frame::from_parts`
+Corollaries (properties of the mirror transported to the code generated from the current source text, dev profile):
+  C16G_total_residual, C16G_total_subframe, C16G_total_frame_header, C16G_total_frame   the generated parser never returns
+                                        `none` (never panics): transport of `residual_sat` / `subframe_sat` / `frameHeader_sat` /
+                                        `frame_sat` (the lemmas behind `C16_total_*`)
+  C15G_frame_roundtrip                  on the bytes of a written frame followed by whole bytes the generated `frame` returns that
+                                        frame and exactly those bytes: transport of `C15_frame_bits`
+  C16G_stream_info                      `stream_info` (hypothesis `IsBytes bs` only): the four big-endian fields, `bits(..)` with the 64 bits
+                                        of sample rate / channels / bits / total and the re-alignment, the 16 MD5 bytes, and the closure
+                                        `info_fn`: `streamInfoLogic` (`blocks_stage`, `frames_stage`) shows that the generated
+                                        `StreamInfo::new` + setters of part `verify` + the two fall-through `if`s are exactly the range
+                                        checks the mirror inlines (through `C18G_streaminfo_new`, `C18G_set_block_sizes`, `C18G_set_frame_sizes`)
+  C16G_metadata_block                   `metadata_block`: last flag / type / 24-bit length, type 0 = `stream_info` + `Into::into`, otherwise
+                                        `byte_take(length)` + `MetadataBlockData::new_unknown` (`C18G_unknown_new`), `MetadataBlock::from_parts`
+  relB_bind, relB_shift, relB_beU, relB_byteTake   sequencing lemmas for byte-level parsers
+The chain stops here: `stream` is GENERATED (Gen/Parser.lean: `byte_tag`, the `while` loop as `whileP` with fuel `len + 1`,
+`many_till(frame, eof)` as `manyTillEof` with fuel `len + 1`, the `Stream` builders as checked readings) but has no theorem, so
+there is no `C16G_stream` / `C16G_total` / `C15G_stream_roundtrip` for whole streams (frame level: see the corollaries above).
+Missing for `C16G_stream`: `byteTagP` against `Repo.byteTag` (needs injectivity of `bytesToBits` on byte lists), `whileP` against
+`Repo.metadataLoop` and `manyTillEof` against `Repo.framesTillEof` (both: the fuel is never exhausted because `C16G_metadata_block` /
+`C16G_frame` give a strictly shorter rest), and the builder loops against the mirror's `PStream`.
 One observation, kept inside `outer_loop`: the generated code has the step `part + 1` (`addU`) of
 `partition_len * (part + 1)`, which the mirror does not list as a panic site; it cannot overflow because
 `part < partition_count <= 2^15` (hypothesis `part + n < 2^64` of `outer_loop`, discharged in `C16G_residual_run`).
@@ -43,6 +65,9 @@ import FlacVerif.Model.RepoParser
 import FlacVerif.Gen.Parser
 import FlacVerif.Theorems.C18Gen
 import FlacVerif.Lemmas.RepoRoundTripFrame
+import FlacVerif.Theorems.C15Gen
+import FlacVerif.Theorems.C15
+import FlacVerif.Theorems.C16
 
 namespace FlacVerif.C16Gen
 open FlacVerif FlacVerif.Repo FlacVerif.Gen.Parser
@@ -1167,6 +1192,233 @@ theorem ch_from_tag (t : Nat) :
         · subst e10; exact Or.inl ⟨.MidSide, rfl, rfl⟩
         · exact Or.inr ⟨by simp [h8, e8, e9, e10], by simp [h8, e8, e9, e10]⟩
 
+/-! ### every bit-level parser of the mirror returns a suffix of its input -/
+
+def Suf {α : Type} (i : Bits) (x : PResult (α × Bits)) : Prop :=
+  ∀ v r, x = .ok (v, r) → ∃ m, m ≤ i.length ∧ r = i.drop m
+
+theorem Suf.ok_self {α : Type} (v : α) (i : Bits) : Suf i (PResult.ok (v, i)) := by
+  intro v' r h; simp only [PResult.ok.injEq, Prod.mk.injEq] at h; exact ⟨0, Nat.zero_le _, by rw [← h.2]; rfl⟩
+theorem Suf.error {α : Type} (i : Bits) (e : Bool) : Suf i (PResult.error e : PResult (α × Bits)) := by
+  intro v r h; simp at h
+theorem Suf.panic {α : Type} (i : Bits) (s : String) : Suf i (PResult.panic s : PResult (α × Bits)) := by
+  intro v r h; simp at h
+
+theorem Suf.bind {α β : Type} {i : Bits} {x : PResult (α × Bits)} {f : α × Bits → PResult (β × Bits)}
+    (hx : Suf i x) (hf : ∀ v r, Suf r (f (v, r))) : Suf i (x >>= f) := by
+  intro v' r' h
+  cases x with
+  | ok p =>
+    obtain ⟨v, r⟩ := p
+    simp only [PResult.ok_bind] at h
+    obtain ⟨m, hm, rfl⟩ := hx v r rfl
+    obtain ⟨m', hm', rfl⟩ := hf v _ v' r' h
+    rw [List.length_drop] at hm'
+    exact ⟨m + m', by omega, by rw [List.drop_drop]⟩
+  | error e => simp at h
+  | panic s => simp at h
+
+theorem Suf.bindO {γ β : Type} {i : Bits} (x : PResult γ) (g : γ → PResult (β × Bits)) (h : ∀ a, Suf i (g a)) :
+    Suf i (x >>= g) := by
+  cases x with
+  | ok a => simpa using h a
+  | error e => intro v r hh; simp at hh
+  | panic s => intro v r hh; simp at hh
+
+theorem suf_takeBits (w n : Nat) (i : Bits) : Suf i (Repo.takeBits w n i) := by
+  intro v r h
+  obtain ⟨a, b, _⟩ := takeBits_ok h
+  exact ⟨n, b, a⟩
+
+theorem suf_unaryCode : ∀ i : Bits, Suf i (unaryCode i) := by
+  intro i
+  induction i with
+  | nil => exact Suf.error _ _
+  | cons b t ih =>
+    cases b with
+    | true =>
+      intro v r h
+      simp only [unaryCode, PResult.ok.injEq, Prod.mk.injEq] at h
+      exact ⟨1, by simp, by rw [← h.2]; rfl⟩
+    | false =>
+      intro v r h
+      rw [unaryCode] at h
+      cases h2 : unaryCode t with
+      | ok p =>
+        obtain ⟨q, r'⟩ := p
+        rw [h2] at h
+        simp only [PResult.ok.injEq, Prod.mk.injEq] at h
+        obtain ⟨m, hm, hr⟩ := ih q r' h2
+        exact ⟨m + 1, by simp; omega, by rw [← h.2, hr]; rfl⟩
+      | error e => rw [h2] at h; simp at h
+      | panic s => rw [h2] at h; simp at h
+
+theorem suf_rawSamplesLoop (bps : Nat) : ∀ (n : Nat) (i : Bits), Suf i (rawSamplesLoop bps n i) := by
+  intro n
+  induction n with
+  | zero => intro i; exact Suf.ok_self _ _
+  | succ n ih =>
+    intro i
+    unfold rawSamplesLoop
+    refine Suf.bind (suf_takeBits _ _ _) (fun u r => ?_)
+    refine Suf.bindO _ _ (fun x => ?_)
+    refine Suf.bind (ih r) (fun xs r2 => ?_)
+    exact Suf.ok_self _ _
+
+theorem suf_rawSamples (bps n : Nat) (i : Bits) : Suf i (rawSamples bps n i) := by
+  unfold rawSamples
+  exact Suf.bindO _ _ (fun _ => suf_rawSamplesLoop bps n i)
+
+theorem suf_residualSamples (p w : Nat) : ∀ (n t : Nat) (i : Bits), Suf i (residualSamples p w n t i) := by
+  intro n
+  induction n with
+  | zero => intro t i; exact Suf.ok_self _ _
+  | succ n ih =>
+    intro t i
+    unfold residualSamples
+    split
+    · exact Suf.bind (ih _ i) (fun v r => Suf.ok_self _ _)
+    · refine Suf.bind (suf_unaryCode i) (fun q r => ?_)
+      refine Suf.bind (suf_takeBits _ _ _) (fun rv r2 => ?_)
+      exact Suf.bind (ih _ r2) (fun v r3 => Suf.ok_self _ _)
+
+theorem suf_residualParts (pBits plen w : Nat) : ∀ (n part : Nat) (i : Bits), Suf i (residualParts pBits plen w n part i) := by
+  intro n
+  induction n with
+  | zero => intro part i; exact Suf.ok_self _ _
+  | succ n ih =>
+    intro part i
+    unfold residualParts
+    refine Suf.bind (suf_takeBits _ _ _) (fun p r => ?_)
+    refine Suf.bindO _ _ (fun lo => ?_)
+    refine Suf.bindO _ _ (fun hi => ?_)
+    refine Suf.bind (suf_residualSamples _ _ _ _ _) (fun v r2 => ?_)
+    exact Suf.bind (ih _ r2) (fun v2 r3 => Suf.ok_self _ _)
+
+theorem suf_residual (bs w : Nat) (i : Bits) : Suf i (Repo.residual bs w i) := by
+  unfold Repo.residual
+  refine Suf.bind (suf_takeBits _ _ _) (fun method r => ?_)
+  refine Suf.bindO _ _ (fun pBits => ?_)
+  refine Suf.bind (suf_takeBits _ _ _) (fun order r2 => ?_)
+  refine Suf.bindO _ _ (fun count => ?_)
+  dsimp only
+  split
+  · exact Suf.panic _ _
+  · refine Suf.bind (suf_residualParts _ _ _ _ _ _) (fun v r3 => ?_)
+    refine Suf.bindO _ _ (fun _ => ?_)
+    refine Suf.bindO _ _ (fun _ => ?_)
+    refine Suf.bindO _ _ (fun _ => ?_)
+    refine Suf.bindO _ _ (fun _ => ?_)
+    exact Suf.ok_self _ _
+
+theorem suf_subframeHeader (i : Bits) : Suf i (subframeHeader i) := by
+  unfold subframeHeader
+  refine Suf.bind (suf_takeBits _ _ _) (fun t r => ?_)
+  refine Suf.bind (suf_takeBits _ _ _) (fun wf r2 => ?_)
+  dsimp only
+  split
+  · exact Suf.error _ _
+  · exact Suf.ok_self _ _
+
+theorem suf_constant (bs bps : Nat) (i : Bits) : Suf i (Repo.constant bs bps i) := by
+  unfold Repo.constant
+  refine Suf.bind (suf_subframeHeader _) (fun t r => ?_)
+  dsimp only
+  split
+  · exact Suf.error _ _
+  · refine Suf.bind (suf_takeBits _ _ _) (fun u r2 => ?_)
+    exact Suf.bindO _ _ (fun _ => Suf.ok_self _ _)
+
+theorem suf_verbatim (bs bps : Nat) (i : Bits) : Suf i (Repo.verbatim bs bps i) := by
+  unfold Repo.verbatim
+  refine Suf.bind (suf_subframeHeader _) (fun t r => ?_)
+  dsimp only
+  split
+  · exact Suf.error _ _
+  · exact Suf.bind (suf_rawSamples _ _ _) (fun d r2 => Suf.ok_self _ _)
+
+theorem suf_fixedLpc (bs bps : Nat) (i : Bits) : Suf i (Repo.fixedLpc bs bps i) := by
+  unfold Repo.fixedLpc
+  refine Suf.bind (suf_subframeHeader _) (fun t r => ?_)
+  dsimp only
+  split
+  · exact Suf.error _ _
+  · refine Suf.bindO _ _ (fun order => ?_)
+    refine Suf.bind (suf_rawSamples _ _ _) (fun warm r2 => ?_)
+    dsimp only
+    split
+    · exact Suf.error _ _
+    · exact Suf.bind (suf_residual _ _ _) (fun res r3 => Suf.ok_self _ _)
+
+theorem suf_quantizedParameters (order : Nat) (i : Bits) : Suf i (quantizedParameters order i) := by
+  unfold quantizedParameters
+  refine Suf.bind (suf_takeBits _ _ _) (fun p r => ?_)
+  refine Suf.bindO _ _ (fun precision => ?_)
+  refine Suf.bind (suf_takeBits _ _ _) (fun x r2 => ?_)
+  refine Suf.bindO _ _ (fun sv => ?_)
+  refine Suf.bind (suf_rawSamples _ _ _) (fun coefs r3 => ?_)
+  refine Suf.bindO _ _ (fun o => ?_)
+  cases o with
+  | none => exact Suf.error _ _
+  | some u => exact Suf.ok_self _ _
+
+theorem suf_lpc (bs bps : Nat) (i : Bits) : Suf i (Repo.lpc bs bps i) := by
+  unfold Repo.lpc
+  refine Suf.bind (suf_subframeHeader _) (fun t r => ?_)
+  dsimp only
+  split
+  · exact Suf.error _ _
+  · refine Suf.bindO _ _ (fun o0 => ?_)
+    refine Suf.bindO _ _ (fun order => ?_)
+    refine Suf.bind (suf_rawSamples _ _ _) (fun warm r2 => ?_)
+    dsimp only
+    split
+    · exact Suf.error _ _
+    · refine Suf.bind (suf_quantizedParameters _ _) (fun q r3 => ?_)
+      refine Suf.bind (suf_residual _ _ _) (fun res r4 => ?_)
+      exact Suf.bindO _ _ (fun _ => Suf.ok_self _ _)
+
+theorem suf_alt {α : Type} (p q : Bits → PResult (α × Bits)) (i : Bits) (hp : Suf i (p i)) (hq : Suf i (q i)) :
+    Suf i (Repo.alt p q i) := by
+  unfold Repo.alt
+  cases h : p i with
+  | ok v => rw [h] at hp; exact hp
+  | error e => cases e <;> simp [hq, Suf.error]
+  | panic s => exact Suf.panic _ _
+
+theorem suf_subframe (bs bps : Nat) (i : Bits) : Suf i (Repo.subframe bs bps i) := by
+  unfold Repo.subframe
+  refine Suf.bindO _ _ (fun _ => ?_)
+  refine Suf.bindO _ _ (fun _ => ?_)
+  refine Suf.bindO _ _ (fun _ => ?_)
+  refine Suf.bindO _ _ (fun _ => ?_)
+  refine Suf.bindO _ _ (fun _ => ?_)
+  exact suf_alt _ _ i (suf_constant _ _ _) (suf_alt _ _ i (suf_fixedLpc _ _ _) (suf_alt _ _ i (suf_lpc _ _ _) (suf_verbatim _ _ _)))
+
+theorem suf_subframes (bs bps : Nat) (a : ChannelAssignment) : ∀ (n ch : Nat) (i : Bits), Suf i (Repo.subframes bs bps a n ch i) := by
+  intro n
+  induction n with
+  | zero => intro ch i; exact Suf.ok_self _ _
+  | succ n ih =>
+    intro ch i
+    unfold Repo.subframes
+    refine Suf.bindO _ _ (fun b => ?_)
+    have hs := suf_subframe bs b i
+    cases h : Repo.subframe bs b i with
+    | ok p =>
+      obtain ⟨sf, tail⟩ := p
+      dsimp only
+      split
+      · exact Suf.error _ _
+      · obtain ⟨m, hm, rfl⟩ := hs sf tail h
+        intro v r hh
+        have := Suf.bind (ih (ch + 1) (i.drop m)) (fun sfs r2 => Suf.ok_self (sf :: sfs) r2) v r hh
+        obtain ⟨m', hm', hr⟩ := this
+        rw [List.length_drop] at hm'
+        exact ⟨m + m', by omega, by rw [hr, List.drop_drop]⟩
+    | error e => cases e <;> exact Suf.error _ _
+    | panic s => exact Suf.panic _ _
+
 /-- the common tail of `frame_header` / `frame`: checksum of the consumed bytes, `verify(be_uN, ..)`, result -/
 theorem crc_tail {α β : Type} (params : CrcParams) (n : Nat) (c : Bool) (bs : List Nat) (K : Nat) (hK : K ≤ bs.length)
     (conv : β → α) (gv : β) (v : α) (hconv : conv gv = v) :
@@ -1335,6 +1587,533 @@ theorem C16G_frame_header (c : Bool) (bs : List Nat) (hb : IsBytes bs) :
                 · have := ss_from_tag_none v6 hs
                   have hs' : v6 > 7 := by omega
                   simp [this, hs', bindO, errP, relB]
+
+/-! ### `frame` -/
+
+/-- the closure of `many_m_n` in the generated `frame` (state = the channel counter) -/
+def sfBody (bs bps : Nat) (gca : Gen.Headers.ChannelAssignment) (ch : Nat) (i : List Bool) :
+    Option (Nat × PM (List Bool × SubFrame)) :=
+  (addU true 64 bps (Gen.Headers.ChannelAssignment.bits_per_sample_offset gca ch)).bind fun v2 =>
+  (subframe_pre true bs v2).bind fun _ =>
+  let ret : PM ((List Bool) × FlacVerif.SubFrame) := (subframe_run true bs v2) i
+  (addU true 64 ch 1).bind fun v3 =>
+  let ch : Nat := v3
+  some (ch, ret)
+
+theorem bps_offset_eq (gca : Gen.Headers.ChannelAssignment) (ch : Nat) :
+    Gen.Headers.ChannelAssignment.bits_per_sample_offset gca ch = (C02Hdr.caOfGen gca).bpsOffset ch := by
+  cases gca <;> rfl
+
+theorem channels_eq (gca : Gen.Headers.ChannelAssignment) :
+    Gen.Headers.ChannelAssignment.channels gca = (C02Hdr.caOfGen gca).channels := by
+  cases gca <;> rfl
+
+theorem many_subframes (bs bps : Nat) (gca : Gen.Headers.ChannelAssignment) :
+    ∀ (n ch : Nat) (i : Bits) (acc : List SubFrame), ch + n < 2 ^ 64 →
+      manyMNSAux (sfBody bs bps gca) n ch i acc = accX acc (Repo.subframes bs bps (C02Hdr.caOfGen gca) n ch i) := by
+  intro n
+  induction n with
+  | zero => intro ch i acc _; simp [manyMNSAux, Repo.subframes, accX, okP]
+  | succ n ih =>
+    intro ch i acc hb
+    have hch : ch + 1 < 2 ^ 64 := by omega
+    simp only [manyMNSAux, Repo.subframes, sfBody, bps_offset_eq]
+    by_cases hbp : bps + (C02Hdr.caOfGen gca).bpsOffset ch < 2 ^ 64
+    · simp only [addU, uadd, hbp, hch, if_true, Option.bind_some, PResult.ok_bind]
+      have hsub := C16G_subframe bs (bps + (C02Hdr.caOfGen gca).bpsOffset ch) i
+      unfold Gen.Parser.subframe at hsub
+      cases hp : subframe_pre true bs (bps + (C02Hdr.caOfGen gca).bpsOffset ch) with
+      | none =>
+        rw [hp] at hsub
+        simp only [Option.bind_none] at hsub ⊢
+        cases h2 : Repo.subframe bs (bps + (C02Hdr.caOfGen gca).bpsOffset ch) i with
+        | ok w => rw [h2] at hsub; obtain ⟨a, b⟩ := w; simp at hsub
+        | error e => rw [h2] at hsub; cases e <;> simp at hsub
+        | panic s => simp [accX]
+      | some u =>
+        rw [hp] at hsub
+        simp only [Option.bind_some] at hsub ⊢
+        rw [hsub]
+        cases h2 : Repo.subframe bs (bps + (C02Hdr.caOfGen gca).bpsOffset ch) i with
+        | ok w =>
+          obtain ⟨sf, tail⟩ := w
+          simp only [cls_ok]
+          by_cases hl : tail.length = i.length
+          · simp [hl, accX, errP]
+          · simp only [hl, if_false]
+            rw [ih (ch + 1) tail (acc ++ [sf]) (by omega)]
+            cases h3 : Repo.subframes bs bps (C02Hdr.caOfGen gca) n (ch + 1) tail with
+            | ok z => obtain ⟨sfs, r⟩ := z; simp [accX]
+            | error e => cases e <;> simp [accX]
+            | panic s => simp [accX]
+        | error e => cases e <;> simp [accX]
+        | panic s => simp [accX]
+    · simp [addU, uadd, hbp, accX]
+
+theorem align_suffix (bs : List Nat) (m : Nat) (hm : m ≤ (bytesToBits bs).length) :
+    alignByte ((bytesToBits bs).drop m) =
+      bytesToBits (bs.drop (bs.length - ((bytesToBits bs).drop m).length / 8)) := by
+  rw [Repo.bytesToBits_length] at hm
+  unfold alignByte
+  rw [List.drop_drop, List.length_drop, Repo.bytesToBits_length, ← drop_bits]
+  congr 1
+  omega
+
+/-- hand-model image of a generated `Frame` -/
+def frOfGen (g : Gen.Writer.Frame) : Frame := { header := C08Gen.hdrOfGen g.header, subframes := g.subframes }
+
+theorem ss_bits_eq (g : Gen.Headers.SampleSizeSpec) :
+    sampleSizeBits (Gen.Headers.SampleSizeSpec.into_tag g) = Gen.Headers.SampleSizeSpec.into_bits g := by
+  cases g <;> rfl
+
+theorem C16G_frame (info : StreamInfo) (c : Bool) (bs : List Nat) (hb : IsBytes bs) (hch : info.channels < 2 ^ 64) :
+    relB frOfGen bs (Gen.Parser.frame true info c bs) (Repo.frame info c (bytesToBits bs)) := by
+  unfold Gen.Parser.frame frame_pre frame_run Repo.frame
+  have hh := C16G_frame_header true bs hb
+  unfold frame_header at hh
+  rcases relB_elim hh with ⟨k, gh, hk, e1, e2⟩ | ⟨e1, e2⟩ | ⟨e1, e2⟩ | ⟨e1, s, e2⟩
+  · simp only [Option.bind_some, e1, e2, bindP_ok, PResult.ok_bind]
+    have ha : (C08Gen.hdrOfGen gh).assignment = C02Hdr.caOfGen gh.channel_assignment := rfl
+    have hst : (C08Gen.hdrOfGen gh).sampleSizeTag = Gen.Headers.SampleSizeSpec.into_tag gh.sample_size_spec := rfl
+    simp only [ha, hst, ss_bits_eq, ← channels_eq]
+    by_cases hc : Gen.Headers.ChannelAssignment.channels gh.channel_assignment = info.channels
+    · simp only [hc, ne_eq, not_true_eq_false, decide_false, Bool.false_eq_true, if_false]
+      have hbsz := C15Gen.block_size_eq true gh
+      cases hbs : headerBlockSize (C08Gen.hdrOfGen gh) with
+      | ok n =>
+        rw [hbs] at hbsz
+        simp only [hbsz, Option.bind_some, PResult.ok_bind]
+        by_cases hbps : (Gen.Headers.SampleSizeSpec.into_bits gh.sample_size_spec).getD info.bps = info.bps
+        · simp only [hbps, not_true_eq_false, decide_false, Bool.false_eq_true, if_false]
+          change relB frOfGen bs (bindP (bitsP (manyMNS _ 0 (sfBody n _ gh.channel_assignment)) (List.drop k bs)) _) _
+          unfold bitsP manyMNS
+          rw [many_subframes n info.bps gh.channel_assignment info.channels 0 (bytesToBits (bs.drop k)) [] (by omega)]
+          have hsuf := suf_subframes n info.bps (C02Hdr.caOfGen gh.channel_assignment) info.channels 0 (bytesToBits (bs.drop k))
+          cases h3 : Repo.subframes n info.bps (C02Hdr.caOfGen gh.channel_assignment) info.channels 0 (bytesToBits (bs.drop k)) with
+          | ok z =>
+            obtain ⟨sfs, j⟩ := z
+            obtain ⟨m, hm, rfl⟩ := hsuf sfs j h3
+            simp only [accX, List.nil_append, bindP_ok, bindP_okP, PResult.ok_bind, align_suffix (bs.drop k) m hm, List.drop_drop]
+            have hK : k + ((bs.drop k).length - ((bytesToBits (bs.drop k)).drop m).length / 8) ≤ bs.length := by
+              rw [List.length_drop]; omega
+            exact crc_tail rfcCrc16 2 c bs _ hK frOfGen _ _ rfl
+          | error e => cases e <;> simp [accX, relB]
+          | panic s => simp [accX, relB]
+        · simp [hbps, relB, errP]
+      | error e => rw [hbs] at hbsz; exact absurd hbsz id
+      | panic s => rw [hbs] at hbsz; simp [hbsz, relB]
+    · simp [hc, relB, errP]
+  · simp only [Option.bind_some, e1, e2]; simp [relB]
+  · simp only [Option.bind_some, e1, e2]; simp [relB]
+  · simp only [Option.bind_some, e1, e2]; simp [relB]
+
+/-! ### sequencing of byte-level parsers -/
+
+theorem relB_shift {α β : Type} {conv : β → α} {bs : List Nat} {k : Nat} (hk : k ≤ bs.length)
+    {g : PM (List Nat × β)} {m : PResult (α × Bits)} (h : relB conv (bs.drop k) g m) : relB conv bs g m := by
+  cases m with
+  | ok x =>
+    obtain ⟨v, rb⟩ := x
+    obtain ⟨k2, gv, h1, h2, h3, h4⟩ := h
+    rw [List.length_drop] at h1
+    exact ⟨k + k2, gv, by omega, by rw [h2, List.drop_drop], h3, by rw [h4, List.drop_drop]⟩
+  | error e => cases e <;> exact h
+  | panic s => exact h
+
+theorem relB_bind {α β α' β' : Type} {conv : β → α} {conv' : β' → α'} {bs : List Nat} {g : PM (List Nat × β)}
+    {m : PResult (α × Bits)} {Kg : List Nat × β → PM (List Nat × β')} {Km : α × Bits → PResult (α' × Bits)}
+    (h : relB conv bs g m)
+    (hK : ∀ k gv, k ≤ bs.length → m = .ok (conv gv, bytesToBits (bs.drop k)) →
+      relB conv' bs (Kg (bs.drop k, gv)) (Km (conv gv, bytesToBits (bs.drop k)))) :
+    relB conv' bs (bindP g Kg) (m >>= Km) := by
+  rcases relB_elim h with ⟨k, gv, hk, e1, e2⟩ | ⟨e1, e2⟩ | ⟨e1, e2⟩ | ⟨e1, s, e2⟩
+  · rw [e1, e2]; exact hK k gv hk e2
+  · rw [e1, e2]; rfl
+  · rw [e1, e2]; rfl
+  · rw [e1, e2]; rfl
+
+theorem relB_beU (n : Nat) (bs : List Nat) : relB id bs (beU n bs) (beUint n (bytesToBits bs)) := by
+  by_cases hn : n ≤ bs.length
+  · obtain ⟨e1, e2⟩ := beU_ge bs n hn
+    rw [e1, e2]; exact ⟨n, _, hn, rfl, rfl, rfl⟩
+  · obtain ⟨e1, e2⟩ := beU_lt bs n (by omega)
+    rw [e1, e2]; rfl
+
+theorem relB_byteTake (n : Nat) (bs : List Nat) (hb : IsBytes bs) :
+    relB id bs (Gen.Parser.byteTake n bs) (Repo.byteTake n (bytesToBits bs)) := by
+  by_cases hn : n ≤ bs.length
+  · obtain ⟨e1, e2⟩ := byteTake_ge bs n hb hn
+    rw [e1, e2]; exact ⟨n, _, hn, rfl, rfl, rfl⟩
+  · obtain ⟨e1, e2⟩ := byteTake_lt bs n (by omega)
+    rw [e1, e2]; rfl
+
+theorem beUint_lt {n v : Nat} {i r : Bits} (h : beUint n i = .ok (v, r)) : v < 2 ^ (8 * n) := by
+  have := Repo.beUint_sat n i
+  rw [h] at this
+  exact this
+
+theorem byteTake_len {n : Nat} {v : List Nat} {i r : Bits} (h : Repo.byteTake n i = .ok (v, r)) : v.length = n := by
+  unfold Repo.byteTake at h
+  split at h
+  · simp at h
+  · simp only [PResult.ok.injEq, Prod.mk.injEq] at h
+    rw [← h.1]; exact Repo.bitsToBytes_length n i
+
+/-! ### `stream_info` -/
+
+/-- outcome map that ignores the mirror's rest (used with a separate statement about the rest) -/
+def clsL {α : Type} (r : List Nat) : PResult (α × Bits) → PM (List Nat × α)
+  | .ok (v, _) => some (.ok (r, v))
+  | .error true => some (.error .incomplete)
+  | .error false => some (.error .error)
+  | .panic _ => none
+
+theorem relB_of_clsL {α : Type} {bs : List Nat} {k : Nat} (hk : k ≤ bs.length) {g : PM (List Nat × α)}
+    {m : PResult (α × Bits)} (hg : g = clsL (bs.drop k) m)
+    (hr : ∀ v rb, m = .ok (v, rb) → rb = bytesToBits (bs.drop k)) : relB id bs g m := by
+  cases m with
+  | ok x => obtain ⟨v, rb⟩ := x; exact ⟨k, v, hk, hg, rfl, hr v rb rfl⟩
+  | error e => cases e <;> exact hg
+  | panic s => exact hg
+
+theorem verifyBps_same (b : Nat) : Repo.verifyBps b = FlacVerif.verifyBps b := rfl
+
+theorem blocks_stage (S0 : StreamInfo) (v4 mb xb : Nat) :
+    (if (!(decide (v4 = 0) && decide (mb = 65535) && decide (xb = 0))) = true then
+        (Gen.Verify.StreamInfo.set_block_sizes S0 mb xb).bind fun r4 =>
+          if r4.fst = true then some (some r4.snd) else some none
+      else some (some S0)) =
+    if v4 = 0 ∧ mb = 65535 ∧ xb = 0 then some (some S0)
+    else if (1 ≤ mb ∧ mb ≤ 32767) ∧ (1 ≤ xb ∧ xb ≤ 32767) ∧ mb ≤ xb then
+      some (some { S0 with minBlock := mb, maxBlock := xb })
+    else some none := by
+  rw [C18Gen.C18G_set_block_sizes]
+  by_cases hu : v4 = 0 ∧ mb = 65535 ∧ xb = 0
+  · obtain ⟨u1, u2, u3⟩ := hu
+    subst u1; subst u2; subst u3
+    simp
+  · have : (!(decide (v4 = 0) && decide (mb = 65535) && decide (xb = 0))) = true := by
+      simp only [Bool.not_eq_true', Bool.and_eq_false_iff, decide_eq_false_iff_not]
+      by_cases z1 : v4 = 0
+      · by_cases z2 : mb = 65535
+        · exact Or.inr (fun z3 => hu ⟨z1, z2, z3⟩)
+        · exact Or.inl (Or.inr z2)
+      · exact Or.inl (Or.inl z1)
+    simp only [this, if_true, hu, if_false, Option.bind_some]
+    by_cases ok : (1 ≤ mb ∧ mb ≤ 32767) ∧ (1 ≤ xb ∧ xb ≤ 32767) ∧ mb ≤ xb
+    · obtain ⟨⟨b1, b2⟩, ⟨b3, b4⟩, b5⟩ := ok
+      have h1 : mb < 65536 := by omega
+      have h2 : xb < 65536 := by omega
+      simp [verifyBlockSize, maxBlockSize, b1, b2, b3, b4, b5, h1, h2]
+    · have : (verifyBlockSize mb && (verifyBlockSize xb && decide (mb ≤ xb))) = false := by
+        apply Bool.eq_false_iff.mpr
+        intro h
+        simp [verifyBlockSize, maxBlockSize] at h
+        exact ok ⟨⟨h.1.1, of_decide_eq_true h.1.2⟩, ⟨h.2.1.1, of_decide_eq_true h.2.1.2⟩, h.2.2⟩
+      simp [this, ok]
+
+theorem frames_stage (S : StreamInfo) (r : List Nat) (mf xf : Nat) (hmf : mf < 2 ^ 32) (hxf : xf < 2 ^ 32) :
+    ((bindVR (if (decide (mf ≠ 0) || decide (xf ≠ 0)) = true then
+          (Gen.Verify.StreamInfo.set_frame_sizes S mf xf).bind fun r5 =>
+            if r5.fst = true then some (some r5.snd) else some none
+        else some (some S)) fun info => some (some info)).bind fun v6 => bindO v6 fun info => okP (r, info)) =
+    if ¬(mf = 0 ∧ xf = 0) ∧ mf > xf then errP
+    else okP (r, { S with minFrame := if mf = 0 ∧ xf = 0 then S.minFrame else mf,
+                          maxFrame := if mf = 0 ∧ xf = 0 then S.maxFrame else xf }) := by
+  rw [C18Gen.C18G_set_frame_sizes]
+  by_cases hf : mf = 0 ∧ xf = 0
+  · obtain ⟨f1, f2⟩ := hf
+    subst f1; subst f2
+    simp [bindVR, bindR, bindO]
+  · have hfb : (decide (mf ≠ 0) || decide (xf ≠ 0)) = true := by
+      simp only [Bool.or_eq_true, decide_eq_true_eq]
+      by_cases z : mf = 0
+      · exact Or.inr (fun z2 => hf ⟨z, z2⟩)
+      · exact Or.inl z
+    have hor : ¬mf = 0 ∨ ¬xf = 0 := by simpa using hfb
+    by_cases a4 : mf ≤ xf
+    · have a4' : ¬ mf > xf := by omega
+      simp [hfb, hf, hor, a4, a4', hmf, hxf, bindVR, bindR, bindO]
+    · have a4' : mf > xf := by omega
+      simp [hfb, hf, hor, a4, a4', hmf, hxf, bindVR, bindR, bindO]
+
+/-- The value-level statement about the closure `info_fn` of `stream_info` (proved below, `streamInfoLogic`): the generated
+`Gen.Verify.StreamInfo.new`, `set_total_samples`, `set_md5_digest`, `set_block_sizes` / `set_frame_sizes` (part `verify`) and the two
+fall-through `if`s agree with the range checks the mirror inlines, for all field values. -/
+def StreamInfoLogic : Prop :=
+  ∀ (bs : List Nat) (k5 : Nat) (_hk5 : k5 ≤ bs.length) (v1 c b v4 mb xb mf xf : Nat) (md5 : List Nat)
+    (_hmd : md5.length = 16) (_hmf : mf < 2 ^ 32) (_hxf : xf < 2 ^ 32),
+    relB id bs
+    ((Option.bind (Gen.Verify.StreamInfo.new v1 c b) fun v3_1 =>
+          bindR v3_1 fun info =>
+            (req (decide (md5.length = 16))).bind fun x =>
+              bindVR
+                (if (!(decide (v4 = 0) && decide (mb = 65535) && decide (xb = 0))) = true then
+                  (Gen.Verify.StreamInfo.set_block_sizes
+                        (StreamInfo_set_md5_digest (Gen.Verify.StreamInfo.set_total_samples info v4) md5) mb xb).bind
+                    fun r4 => if r4.fst = true then some (some r4.snd) else some none
+                else some (some (StreamInfo_set_md5_digest (Gen.Verify.StreamInfo.set_total_samples info v4) md5)))
+                fun info =>
+                bindVR
+                  (if (decide (mf ≠ 0) || decide (xf ≠ 0)) = true then
+                    (Gen.Verify.StreamInfo.set_frame_sizes info mf xf).bind fun r5 =>
+                      if r5.fst = true then some (some r5.snd) else some none
+                  else some (some info))
+                  fun info => some (some info)).bind
+      fun v6 => bindO v6 fun info => okP (List.drop k5 bs, info))
+    (if v1 > 96000 then PResult.error false
+    else
+      if c < 1 ∨ c > 8 then PResult.error false
+      else
+        if b > 255 then PResult.error false
+        else
+          if ¬(Repo.verifyBps b = true ∧ b % 4 = 0) then PResult.error false
+          else do
+            passert (decide (md5.length = 16)) "stream_info: md5.try_into().expect(\"Internal error\")"
+            if ¬(v4 = 0 ∧ mb = 65535 ∧ xb = 0) ∧ ¬(1 ≤ mb ∧ mb ≤ 32767) then PResult.error false
+              else
+                if ¬(v4 = 0 ∧ mb = 65535 ∧ xb = 0) ∧ ¬(1 ≤ xb ∧ xb ≤ 32767) then PResult.error false
+                else
+                  if ¬(v4 = 0 ∧ mb = 65535 ∧ xb = 0) ∧ mb > xb then PResult.error false
+                  else
+                    if ¬(mf = 0 ∧ xf = 0) ∧ mf > xf then PResult.error false
+                    else
+                      pure
+                        ({ minBlock := mb, maxBlock := xb,
+                            minFrame := (if mf = 0 ∧ xf = 0 then (2 ^ 32 - 1, 0) else (mf, xf)).fst,
+                            maxFrame := (if mf = 0 ∧ xf = 0 then (2 ^ 32 - 1, 0) else (mf, xf)).snd, rate := v1,
+                            channels := c, bps := b, total := v4, md5 := md5 },
+                          bytesToBits (List.drop k5 bs)))
+
+theorem bindVR_some {σ β : Type} (s : σ) (f : σ → Option (Option β)) : bindVR (some (some s)) f = f s := rfl
+theorem bindVR_none {σ β : Type} (f : σ → Option (Option β)) : bindVR (some (none : Option σ)) f = some none := rfl
+
+theorem streamInfoLogic : StreamInfoLogic := by
+  intro bs k5 hk5 v1 c b v4 mb xb mf xf md5 hmd hmf hxf
+  rw [C18Gen.C18G_streaminfo_new]
+  unfold FlacVerif.StreamInfo.new
+  change relB id bs _ (if v1 > 96000 then _ else if c < 1 ∨ c > 8 then _ else if b > 255 then _ else
+    if ¬(FlacVerif.verifyBps b = true ∧ b % 4 = 0) then _ else _)
+  by_cases hC : v1 ≤ 96000 ∧ 1 ≤ c ∧ c ≤ 8 ∧ b ≤ 255 ∧ FlacVerif.verifyBps b = true ∧ b % 4 = 0
+  · obtain ⟨q1, q2, q3, q4, q5, q6⟩ := hC
+    have m1 : ¬ v1 > 96000 := by omega
+    have m2 : ¬ (c < 1 ∨ c > 8) := by omega
+    have m3 : ¬ b > 255 := by omega
+    simp only [q1, q2, q3, q4, q5, q6, and_self, if_true, Option.bind_some, bindR, m1, m2, m3, if_false, not_true_eq_false,
+      req, hmd, decide_true, passert, PResult.ok_bind, blocks_stage]
+    by_cases hu : v4 = 0 ∧ mb = 65535 ∧ xb = 0
+    · obtain ⟨u1, u2, u3⟩ := hu
+      subst u1; subst u2; subst u3
+      simp only [and_self, if_true, bindVR_some, not_true_eq_false, false_and, if_false]
+      rw [frames_stage _ _ _ _ hmf hxf]
+      by_cases hbad : ¬(mf = 0 ∧ xf = 0) ∧ mf > xf
+      · simp [hbad, relB, errP]
+      · rw [if_neg hbad, if_neg hbad]
+        refine ⟨k5, _, hk5, rfl, ?_, rfl⟩
+        by_cases hf : mf = 0 ∧ xf = 0 <;>
+          simp [hf, StreamInfo.empty, StreamInfo_set_md5_digest, Gen.Verify.StreamInfo.set_total_samples]
+    · simp only [hu, if_false, not_false_eq_true, true_and]
+      by_cases ok : (1 ≤ mb ∧ mb ≤ 32767) ∧ (1 ≤ xb ∧ xb ≤ 32767) ∧ mb ≤ xb
+      · obtain ⟨b1, b2, b3⟩ := ok
+        have b3' : ¬ mb > xb := by omega
+        simp only [b1, b2, b3, and_self, if_true, bindVR_some, not_true_eq_false, if_false, b3']
+        rw [frames_stage _ _ _ _ hmf hxf]
+        by_cases hbad : ¬(mf = 0 ∧ xf = 0) ∧ mf > xf
+        · simp [hbad, relB, errP]
+        · rw [if_neg hbad, if_neg hbad]
+          refine ⟨k5, _, hk5, rfl, ?_, rfl⟩
+          by_cases hf : mf = 0 ∧ xf = 0 <;>
+            simp [hf, StreamInfo.empty, StreamInfo_set_md5_digest, Gen.Verify.StreamInfo.set_total_samples]
+      · simp only [ok, if_false, bindVR_none, Option.bind_some, bindO]
+        have hm : ∀ X : PResult (StreamInfo × Bits),
+            (if ¬(1 ≤ mb ∧ mb ≤ 32767) then (PResult.error false : PResult (StreamInfo × Bits)) else
+              if ¬(1 ≤ xb ∧ xb ≤ 32767) then PResult.error false else if mb > xb then PResult.error false else X) =
+              PResult.error false := by
+          intro X
+          by_cases b1 : 1 ≤ mb ∧ mb ≤ 32767
+          · by_cases b2 : 1 ≤ xb ∧ xb ≤ 32767
+            · have b3 : mb > xb := by
+                have := fun h => ok ⟨b1, b2, h⟩
+                omega
+              rw [if_neg (fun h => h b1), if_neg (fun h => h b2), if_pos b3]
+            · rw [if_neg (fun h => h b1), if_pos b2]
+          · rw [if_pos b1]
+        rw [hm]
+        rfl
+  · have hX : ∀ X : PResult (StreamInfo × Bits), (if v1 > 96000 then (PResult.error false : PResult (StreamInfo × Bits)) else
+        if c < 1 ∨ c > 8 then PResult.error false else if b > 255 then PResult.error false else
+        if ¬(FlacVerif.verifyBps b = true ∧ b % 4 = 0) then PResult.error false else X) = PResult.error false := by
+      intro X
+      by_cases m1 : v1 > 96000
+      · rw [if_pos m1]
+      · by_cases m2 : c < 1 ∨ c > 8
+        · rw [if_neg m1, if_pos m2]
+        · by_cases m3 : b > 255
+          · rw [if_neg m1, if_neg m2, if_pos m3]
+          · have m4 : ¬ (FlacVerif.verifyBps b = true ∧ b % 4 = 0) :=
+              fun h => hC ⟨by omega, by omega, by omega, by omega, h.1, h.2⟩
+            rw [if_neg m1, if_neg m2, if_neg m3, if_pos m4]
+    rw [hX]
+    simp [hC, bindR, bindO, errP, relB]
+
+theorem C16G_stream_info (bs : List Nat) (hb : IsBytes bs) :
+    relB id bs (stream_info true bs) (streamInfo (bytesToBits bs)) := by
+  unfold stream_info streamInfo
+  refine relB_bind (relB_beU 2 bs) (fun k1 mb hk1 _ => ?_)
+  dsimp only [id]
+  refine relB_bind (relB_shift hk1 (relB_beU 2 (bs.drop k1))) (fun k2 xb hk2 _ => ?_)
+  dsimp only [id]
+  refine relB_bind (relB_shift hk2 (relB_beU 3 (bs.drop k2))) (fun k3 mf hk3 e3 => ?_)
+  have hmf : mf < 2 ^ 32 := Nat.lt_of_lt_of_le (beUint_lt e3) (by decide)
+  dsimp only [id]
+  refine relB_bind (relB_shift hk3 (relB_beU 3 (bs.drop k3))) (fun k4 xf hk4 e4 => ?_)
+  have hxf : xf < 2 ^ 32 := Nat.lt_of_lt_of_le (beUint_lt e4) (by decide)
+  dsimp only [id]
+  unfold bitsP
+  simp only [C16G_takeBits]
+  cases h1 : Repo.takeBits 64 20 (bytesToBits (List.drop k4 bs)) with
+  | error e => cases e <;> simp [relB]
+  | panic s => simp [relB]
+  | ok x1 =>
+    obtain ⟨v1, i1⟩ := x1
+    obtain ⟨r1, l1, _⟩ := takeBits_ok h1
+    simp only [cls_ok, bindP_ok, bindP_okP, PResult.ok_bind]
+    cases h2 : Repo.takeBits 64 3 i1 with
+    | error e => cases e <;> simp [relB]
+    | panic s => simp [relB]
+    | ok x2 =>
+      obtain ⟨v2, i2⟩ := x2
+      obtain ⟨r2, l2, _⟩ := takeBits_ok h2
+      simp only [cls_ok, bindP_ok, bindP_okP, PResult.ok_bind]
+      cases h3 : Repo.takeBits 64 5 i2 with
+      | error e => cases e <;> simp [relB]
+      | panic s => simp [relB]
+      | ok x3 =>
+        obtain ⟨v3, i3⟩ := x3
+        obtain ⟨r3, l3, _⟩ := takeBits_ok h3
+        simp only [cls_ok, bindP_ok, bindP_okP, PResult.ok_bind]
+        cases h4 : Repo.takeBits 64 36 i3 with
+        | error e => cases e <;> simp [relB]
+        | panic s => simp [relB]
+        | ok x4 =>
+          obtain ⟨v4, i4⟩ := x4
+          obtain ⟨r4, l4, _⟩ := takeBits_ok h4
+          simp only [cls_ok, bindP_ok, bindP_okP, PResult.ok_bind]
+          subst r1; subst r2; subst r3; subst r4
+          have hL : 64 ≤ 8 * (bs.drop k4).length := by
+            simp only [List.length_drop, Repo.bytesToBits_length] at l1 l2 l3 l4 ⊢
+            omega
+          have h8 : k4 + 8 ≤ bs.length := by rw [List.length_drop] at hL; omega
+          have hdrop : List.drop (20 + 3 + 5 + 36) (bytesToBits (List.drop k4 bs)) =
+              bytesToBits (bs.drop (k4 + 8)) := by
+            have hd := drop_bits (bs.drop k4) 8
+            rw [List.drop_drop] at hd
+            exact hd
+          have hq : (List.drop k4 bs).length - (bytesToBits (bs.drop (k4 + 8))).length / 8 = 8 := by
+            rw [Repo.bytesToBits_length, List.length_drop, List.length_drop, Nat.mul_div_cancel_left _ (by decide : 0 < 8)]; omega
+          have hal : alignByte (bytesToBits (bs.drop (k4 + 8))) = bytesToBits (bs.drop (k4 + 8)) := by
+            unfold alignByte
+            rw [Repo.bytesToBits_length, Nat.mul_mod_right]; rfl
+          clear h1 h2 h3 h4 l1 l2 l3 l4
+          by_cases hc1 : v2 + 1 < 2 ^ 64
+          · by_cases hc2 : v3 + 1 < 2 ^ 64
+            · simp only [addU, uadd, hc1, hc2, if_true, Option.bind_some, PResult.ok_bind, bindP_okP, hdrop, hq, hal, List.drop_drop]
+              refine relB_bind (relB_shift h8 (relB_byteTake 16 (bs.drop (k4 + 8)) (hb.drop _))) (fun k5 md5 hk5 e5 => ?_)
+              have hmd := byteTake_len e5
+              dsimp only [id] at hmd ⊢
+              exact streamInfoLogic bs k5 hk5 v1 (v2 + 1) (v3 + 1) v4 mb xb mf xf md5 hmd hmf hxf
+            · simp [addU, uadd, hc1, hc2, relB]
+          · simp [addU, uadd, hc1, relB]
+
+/-! ### `metadata_block` -/
+
+/-- hand-model image of a generated `MetadataBlock`: the pair (is_last, block) of the mirror -/
+def mbOfGen (g : Gen.Writer.MetadataBlock) : Bool × MetaData :=
+  (g.is_last, match g.data with
+    | .StreamInfo s => .streamInfo s
+    | .Unknown t d => .unknown ⟨t, d⟩)
+
+theorem C16G_metadata_block (bs : List Nat) (hb : IsBytes bs) :
+    relB mbOfGen bs (metadata_block true bs) (metadataBlock (bytesToBits bs)) := by
+  unfold metadata_block metadataBlock
+  refine relB_bind (relB_beU 1 bs) (fun k1 first hk1 _ => ?_)
+  dsimp only [id]
+  refine relB_bind (relB_shift hk1 (relB_beU 3 (bs.drop k1))) (fun k2 len hk2 _ => ?_)
+  dsimp only [id]
+  have e7 : first &&& 127 = first % 128 := Nat.and_two_pow_sub_one_eq_mod first 7
+  have e8 : shrU first 7 = first / 128 := rfl
+  simp only [e7, e8]
+  by_cases h0 : first % 128 = 0
+  · simp only [h0, if_true]
+    have hs := relB_shift hk2 (C16G_stream_info (bs.drop k2) (hb.drop _))
+    rcases relB_elim hs with ⟨k, gv, hk, e1, e2⟩ | ⟨e1, e2⟩ | ⟨e1, e2⟩ | ⟨e1, s, e2⟩
+    · simp only [mapP, e1, e2, bindP_ok, Option.bind_some, bindP_okP, PResult.ok_bind, id, PResult.pure_eq]
+      exact ⟨k, _, hk, rfl, by simp [mbOfGen, MetadataBlock_from_parts], rfl⟩
+    · simp only [mapP, e1, e2]; simp [relB]
+    · simp only [mapP, e1, e2]; simp [relB]
+    · simp only [mapP, e1, e2]; simp [relB]
+  · simp only [h0, if_false]
+    have hs := relB_shift hk2 (relB_byteTake len (bs.drop k2) (hb.drop _))
+    rcases relB_elim hs with ⟨k, blob, hk, e1, e2⟩ | ⟨e1, e2⟩ | ⟨e1, e2⟩ | ⟨e1, s, e2⟩
+    · simp only [e1, e2, bindP_ok, PResult.ok_bind, id, C18Gen.C18G_unknown_new, Option.bind_some, UnknownBlock.new]
+      by_cases h126 : first % 128 > 126
+      · have : ¬ (1 ≤ first % 128 ∧ first % 128 ≤ 126) := by omega
+        simp [h126, this, bindO, errP, relB]
+      · have : 1 ≤ first % 128 ∧ first % 128 ≤ 126 := by omega
+        simp only [h126, this, and_self, if_true, if_false, Option.map_some, bindO, bindP_okP, PResult.pure_eq]
+        exact ⟨k, _, hk, rfl, by simp [mbOfGen, MetadataBlock_from_parts], rfl⟩
+    · simp only [e1, e2]; simp [relB]
+    · simp only [e1, e2]; simp [relB]
+    · simp only [e1, e2]; simp [relB]
+
+/-! ### corollaries: the properties of the mirror hold of the code generated from the CURRENT source text -/
+
+theorem cls_ne_none {α : Type} {x : PResult (α × Bits)} (h : ∀ s, x ≠ .panic s) : cls x ≠ none := by
+  cases x with
+  | ok v => obtain ⟨a, r⟩ := v; simp
+  | error e => cases e <;> simp
+  | panic s => exact absurd rfl (h s)
+
+theorem relB_ne_none {α β : Type} {conv : β → α} {bs : List Nat} {g : PM (List Nat × β)} {m : PResult (α × Bits)}
+    (h : relB conv bs g m) (hm : ∀ s, m ≠ .panic s) : g ≠ none := by
+  rcases relB_elim h with ⟨k, gv, _, e, _⟩ | ⟨e, _⟩ | ⟨e, _⟩ | ⟨_, s, e⟩
+  · rw [e]; simp
+  · rw [e]; simp
+  · rw [e]; simp
+  · exact absurd e (hm s)
+
+/-- C16 ("the parser never panics") for the generated `residual`, dev profile: any bit input, block size below 2^32. -/
+theorem C16G_total_residual (bs w : Nat) (i : Bits) (hbs : bs < 2 ^ 32) : Gen.Parser.residual true bs w i ≠ none := by
+  rw [C16G_residual]
+  exact cls_ne_none (Repo.residual_sat bs w hbs i).noPanic
+
+/-- C16 for the generated `subframe`: any bit input, block size below 2^32, 1..=25 bits per sample. -/
+theorem C16G_total_subframe (bs bps : Nat) (i : Bits) (hbs : bs < 2 ^ 32) (h1 : 1 ≤ bps) (h2 : bps ≤ 25) :
+    Gen.Parser.subframe true bs bps i ≠ none := by
+  rw [C16G_subframe]
+  exact cls_ne_none (Repo.subframe_sat bs bps hbs h1 h2 i).noPanic
+
+/-- C16 for the generated `frame_header`: any byte string. -/
+theorem C16G_total_frame_header (c : Bool) (bs : List Nat) (hb : IsBytes bs) : Gen.Parser.frame_header true c bs ≠ none :=
+  relB_ne_none (C16G_frame_header c bs hb) (Repo.frameHeader_sat c _).noPanic
+
+/-- C16 for the generated `frame`: any byte string, a STREAMINFO with 1..=24 bits per sample (what `stream_info` lets
+through, `C16_streaminfo_range`) and a channel count that fits `usize`. -/
+theorem C16G_total_frame (info : StreamInfo) (c : Bool) (bs : List Nat) (hb : IsBytes bs) (hch : info.channels < 2 ^ 64)
+    (h1 : 1 ≤ info.bps) (h2 : info.bps ≤ 24) : Gen.Parser.frame true info c bs ≠ none :=
+  relB_ne_none (C16G_frame info c bs hb hch) (Repo.frame_sat info c h1 h2 _).noPanic
+
+/-- C15 ("the parser inverts the writer") for the generated `frame`: on bytes whose bits are a written frame `fb` followed
+by whole further bytes `k`, the generated parser returns that frame and exactly the bytes of `k`. -/
+theorem C15G_frame_roundtrip (f : Frame) (info : StreamInfo) (c : Bool) (bs : List Nat) (fb k : Bits)
+    (hb : IsBytes bs) (hch : info.channels < 2 ^ 64)
+    (hbits : f.bits rfcCrc8 rfcCrc16 = some fb) (hok : Repo.FrameOk info f) (hk : k.length % 8 = 0)
+    (hbs : bytesToBits bs = fb ++ k) :
+    ∃ n g, Gen.Parser.frame true info c bs = some (.ok (bs.drop n, g)) ∧ frOfGen g = f ∧ bytesToBits (bs.drop n) = k := by
+  have h := C16G_frame info c bs hb hch
+  rw [hbs, C15_frame_bits f info c fb k hbits hok hk] at h
+  obtain ⟨n, g, _, e, hc, hr⟩ := h
+  exact ⟨n, g, e, hc, hr.symm⟩
 
 /-- The hypothesis `IsBytes` is satisfiable on a non-trivial input: a complete frame header (sync, fixed blocking, block
 size 4096, 44.1 kHz, 2 channels, 16 bit, frame 0) followed by its CRC-8 slot. -/
